@@ -11,6 +11,7 @@ def check(ctx):
     ctx.rule("C04.D4", "every queue construction that seeds the container also seeds unfinished_tasks with its length")
     ctx.assume("same runtime-library assumptions as C01; the at-most-once / exactly-once argument from these premises is on paper (DESIGN 4.C04)")
     ctx.rule("C04.D5", "the engine evaluated as a whole on every small multigraph (parallel edges included), failing set, max_errors, scheduler and dequeue order: the function is called at most once per node, and exactly once for every node whose ancestors succeed")
+    ctx.run(E.rule_queue_is_library_queue, "C04.D1", ctx.model.one_func("run_function_on_graph", "ENGINE"))
     from .engineeval import rule_engine_evaluated
     ctx.run(rule_engine_evaluated, "C04.D5", None, ("once", "complete"))
     ctx.run(E.rule_shared_state_atomic, "C04.D1", ctx.model.one_func("run_function_on_graph", "ENGINE"))
